@@ -114,3 +114,106 @@ def decode_bgl_entry(toks):
         raise DecodeError('BindingType ' + str(kind))
     d['ty'] = ty
     return d
+
+
+# ------------------------------------------------------------------------------------------------ entry point helpers
+def lit_of(tok):
+    if tok.k != 'lit':
+        raise DecodeError('literal expected: ' + text([tok]))
+    kind, v = tok.v
+    if kind == 'raw':
+        m = re.match(r'^(\d+)(usize|u32|u64)?$', v)
+        if not m:
+            raise DecodeError('integer literal expected: ' + v)
+        return int(m.group(1))
+    return v
+
+
+def generic_arg(toks, name):
+    """`Name < X >` -> X tokens"""
+    if not (is_i(toks[0], name) and is_p(toks[1], '<') and is_p(toks[-1], '>')):
+        raise DecodeError(f'{name}<..> expected: {text(toks)}')
+    return toks[2:-1]
+
+
+def struct_lit(toks, *path):
+    """`path { fields }` -> {field: tokens}"""
+    rest = expect_path(toks, *path)
+    if len(rest) != 1 or not is_g(rest[0], '{}'):
+        raise DecodeError(f'{"::".join(path)} {{..}} expected: {text(toks)}')
+    return dict((n, v) for n, _, v in struct_fields(rest[0].v[1]))
+
+
+def decode_entry_items(toks):
+    its = items(toks)
+    out = {'entry_consts': {}, 'compute': [], 'fragment': {}, 'vertex': {}, 'items': its}
+    for it in its:
+        if it.kind == 'const' and it.name.startswith('ENTRY_'):
+            ty, val = const_parts(it)
+            if text(ty) != '& str' or len(val) != 1 or val[0].k != 'lit' or val[0].v[0] != 'string' or not it.vis:
+                raise DecodeError('entry constant: ' + text(it.toks))
+            if it.name in out['entry_consts']:
+                raise DecodeError('duplicate ' + it.name)
+            out['entry_consts'][it.name] = val[0].v[1]
+    for m in find_items(its, 'mod', 'compute'):
+        inner = items(body_of(m))
+        for it in inner:
+            if it.kind == 'const':
+                ty, val = const_parts(it)
+                if text(ty) != '[u32 ; 3]' or len(val) != 1 or not is_g(val[0], '[]'):
+                    raise DecodeError('workgroup size: ' + text(it.toks))
+                out['compute'].append({'const': it.name, 'size': [lit_of(x[0]) for x in split_commas(val[0].v[1])]})
+            elif it.kind == 'fn':
+                gen, params, ret, body = fn_parts(it)
+                bt = text(body)
+                desc = None
+                for i, t in enumerate(body):
+                    if is_i(t, 'ComputePipelineDescriptor') and is_g(body[i + 1] if i + 1 < len(body) else None, '{}'):
+                        desc = dict((n, v) for n, _, v in struct_fields(body[i + 1].v[1]))
+                # the descriptor sits inside `device.create_compute_pipeline(& wgpu::ComputePipelineDescriptor {..})`
+                if desc is None:
+                    for t in body:
+                        if is_g(t, '()'):
+                            inner_t = t.v[1]
+                            for i, x in enumerate(inner_t):
+                                if is_i(x, 'ComputePipelineDescriptor') and i + 1 < len(inner_t) and is_g(inner_t[i + 1], '{}'):
+                                    desc = dict((n, v) for n, _, v in struct_fields(inner_t[i + 1].v[1]))
+                if desc is None:
+                    raise DecodeError('no ComputePipelineDescriptor in ' + it.name)
+                out['compute'].append({'fn': it.name, 'ret': text(ret), 'body': bt, 'desc': {k: text(v) for k, v in desc.items()},
+                                       'entry_point': desc.get('entry_point')})
+    for it in its:
+        if it.kind == 'fn' and it.name.endswith('_entry'):
+            gen, params, ret, body = fn_parts(it)
+            ps = split_commas(params)
+            rname = ret[0].v if ret else None
+            if rname == 'FragmentEntry':
+                n_ret = lit_of(generic_arg(ret, 'FragmentEntry')[0])
+                if not ps or not is_i(ps[0][0], 'targets'):
+                    raise DecodeError('fragment entry params: ' + text(params))
+                arr = ps[0][2]
+                if not is_g(arr, '[]'):
+                    raise DecodeError('targets type: ' + text(ps[0]))
+                parts = arr.v[1]
+                semi = next(i for i, t in enumerate(parts) if is_p(t, ';'))
+                if text(parts[:semi]) != 'Option < wgpu :: ColorTargetState >':
+                    raise DecodeError('targets element type: ' + text(parts[:semi]))
+                n_param = lit_of(parts[semi + 1])
+                lit = struct_lit(body, 'FragmentEntry')
+                out['fragment'][it.name] = {'n_param': n_param, 'n_ret': n_ret, 'fields': {k: text(v) for k, v in lit.items()},
+                                            'overrides_param': any(is_i(p[0], 'overrides') for p in ps[1:]), 'n_params': len(ps)}
+            elif rname == 'VertexEntry':
+                n_ret = lit_of(generic_arg(ret, 'VertexEntry')[0])
+                lit = struct_lit(body, 'VertexEntry')
+                bufs = next(t for t in lit['buffers'] if is_g(t, '[]'))
+                out['vertex'][it.name] = {'n_ret': n_ret, 'params': [(p[0].v, text(p[2:])) for p in ps],
+                                          'buffers': [text(b) for b in split_commas(bufs.v[1])],
+                                          'fields': {k: text(v) for k, v in lit.items() if k != 'buffers'}}
+    for nm in ('vertex_state', 'fragment_state'):
+        f = find_items(its, 'fn', nm)
+        if f:
+            gen, params, ret, body = fn_parts(f[0])
+            path = ('wgpu', 'VertexState') if nm == 'vertex_state' else ('wgpu', 'FragmentState')
+            lit = struct_lit(body, *path)
+            out[nm] = {'params': text(params), 'ret': text(ret), 'fields': {k: text(v) for k, v in lit.items()}}
+    return out
